@@ -770,7 +770,7 @@ func extractConnLegacy(repo, root string) error {
 					if r == "Batch" && dd.Name.Name == "close" {
 						connFns["Batch.close"] = dd
 					}
-				} else if dd.Name.Name == "discardOnKafkaError" || dd.Name.Name == "expectZeroSize" {
+				} else if dd.Name.Name == "discardOnKafkaError" || dd.Name.Name == "expectZeroSize" || strings.HasPrefix(dd.Name.Name, "readFetchResponseHeaderV") {
 					connFns[dd.Name.Name] = dd
 				}
 			case *ast.GenDecl:
@@ -915,6 +915,42 @@ func extractConnLegacy(repo, root string) error {
 		wf["peekErr"], wf["noProgress"], wf["yield"], wf["take"], wf["leave"], unlockAfter(connFns["do"], "waitResponse", false),
 		unlockAfter(connFns["ApiVersions"], "waitResponse", false), unlockAfter(connFns["ReadBatchWith"], "waitResponse", true),
 		batchCloseUnlocks(connFns["Batch.close"]))
+	// parsers that are not readFrom methods: read.go fetch headers, conn.go element callbacks
+	b.WriteString("-- read.go readFetchResponseHeaderV2/V5/V10\n")
+	for _, hv := range []string{"V2", "V5", "V10"} {
+		fd := connFns["readFetchResponseHeader"+hv]
+		if fd == nil {
+			return fmt.Errorf("untranslated: readFetchResponseHeader%s not found", hv)
+		}
+		t, err := translateFetchHeader(fd)
+		if err != nil {
+			return fmt.Errorf("untranslated: %v", err)
+		}
+		fmt.Fprintf(&b, "def fetchHeader%sGen : List Step := [%s]\n", hv, t)
+	}
+	b.WriteString("-- conn.go: the element callbacks of readOffset and of writeCompressedMessages (per negotiated produce version)\n")
+	if fl := findRootArray(connFns["readOffset"]); fl != nil {
+		t, err := x.callback("readOffset", fl.Body.List, 1)
+		if err != nil {
+			return fmt.Errorf("untranslated: %v", err)
+		}
+		fmt.Fprintf(&b, "def readOffsetClosureGen : List Step := [.arr [%s]]\n", t)
+	} else {
+		return fmt.Errorf("untranslated: readOffset has no readArrayWith(&c.rbuf, …) call")
+	}
+	if fl := findRootArray(connFns["writeCompressedMessages"]); fl != nil {
+		var parts []string
+		for _, v := range []int{2, 3, 7} {
+			t, err := x.callback("writeCompressedMessages", fl.Body.List, v)
+			if err != nil {
+				return fmt.Errorf("untranslated: %v", err)
+			}
+			parts = append(parts, fmt.Sprintf("(%d, [.arr [%s]])", v, t))
+		}
+		fmt.Fprintf(&b, "def produceClosureGen : List (Nat × List Step) := [%s]\n\n", strings.Join(parts, ", "))
+	} else {
+		return fmt.Errorf("untranslated: writeCompressedMessages has no readArrayWith(&c.rbuf, …) call")
+	}
 	// Merge methods of the split requests: the first failed part fails the call
 	b.WriteString("/-- protocol/<api>/(*Response).Merge returns the error of the first failed part from inside its loop over the results -/\n")
 	b.WriteString("def strictMerges : List (String × Bool) := [")
